@@ -27,6 +27,7 @@ func runC47(c *Ctx) {
 	c47SMP(c)
 	c47Panics(c)
 	c47IndexGuards(c)
+	c47FragmentSize(c)
 	// debugging aid: C47_DEBUG=1 prints every obligation
 	if os.Getenv("C47_DEBUG") != "" {
 		for _, o := range c.obligs {
